@@ -27,8 +27,8 @@
                               Observation: output lines joined by `|` (an expansion: hex of its text; a
                               variable seen by `"${name-U}"`: hex fields joined by `,`), then `END` + the final
                               global variables, or `ERR` when the shell exited at a failing expansion.
-  Observation: `ok <value> <sorted final env>` or `error <cause>` (the leaf variant of `Error::cause`,
-  `showCause`); for `U` lines `total`.
+  Observation: `ok <value> <sorted final env>` or `error <cause> <sorted env after the Err>` (the leaf variant of
+  `Error::cause`, `showCause`; the map as `envAfterU` computes it); for `U` lines `total`.
   Spec column: `=<observation>` computed by `Spec.evalExact` on `Spec.parseText text`; `-` when the tree is
   outside `Spec.inScope`; `FAIL:…` when the harness' tree is not the tree the Spec reads from the text, or when
   the code's parser model does not build `rpn` of the tree the Spec reads (checked on every case with a tree-
@@ -40,6 +40,7 @@ import YashModel.Arith.Model
 import YashModel.Arith.Spec
 import YashModel.Arith.Shell
 import YashModel.Arith.Unicode
+import YashModel.Arith.Trace
 import YashModel.Arith.TreeLemmas
 open YashModel YashModel.Arith YashModel.Proto
 open YashModel.Generated.ArithTables
@@ -80,14 +81,14 @@ def showCause : Cause → String
   | .eval .assignVariableError => "assignvar"
 
 /-- observation of one evaluation: the outcome (`none` = rejected by the portability check) and its cause -/
-def showRun (o : Option Outcome) (cause : Option Cause) : String :=
+def showRun (o : Option Outcome) (cause : Option Cause) (after : Env := []) : String :=
   match o, cause with
   | some (.value v env), none => s!"ok {v} {showEnv env}"
   | some (.value _ _), some _ => "CAUSE-OF-A-VALUE"
   | some .panic, _ => "MODEL-PANIC"
   | some .fuel, _ => "FUEL"
   | some (.syntaxError .fuel), _ => "FUEL"
-  | _, some c => "error " ++ showCause c
+  | _, some c => "error " ++ showCause c ++ " " ++ showEnv after
   | _, none => "ERROR-WITHOUT-CAUSE"
 
 /-- the three groups of `ErrorCause` (lib.rs) -/
@@ -109,9 +110,11 @@ def showGroup : Group → String
     evaluation); which of two failing operands of a tree is reported it does not say (C does not order them):
     inside the group the model's leaf cause is taken over, outside the group the column disagrees with
     everything. -/
-def specError (g : Group) (model : Option Cause) : String :=
+def specError (g : Group) (model : Option Cause) (after : Env := []) : String :=
+  -- the variables after a failure are no subject of C or POSIX (the shell exits): taken over from the model
+  -- (`assignments_before_failure_persist` says what they are)
   match model with
-  | some c => if causeGroup c = g then "=error " ++ showCause c else "=error " ++ showGroup g
+  | some c => if causeGroup c = g then "=error " ++ showCause c ++ " " ++ showEnv after else "=error " ++ showGroup g
   | none => "=error " ++ showGroup g
 
 def showSpec : Option (Int × Spec.Env) → String
@@ -163,7 +166,8 @@ def runE (portable : Bool) (envT textT : String) (treeWords : List String) : Str
   match decEnv envT, decChars textT with
   | some env, some text =>
     let cause := evalStrCause portable text env
-    let model := showRun (if portable then evalStrPortable text env else some (evalStr text env)) cause
+    let after := envAfterU [] portable text env
+    let model := showRun (if portable then evalStrPortable text env else some (evalStr text env)) cause after
     let tree : Option (Option Spec.Expr) :=
       if treeWords.isEmpty then some none
       else match parsePolish (treeWords.length + 1) treeWords with
@@ -175,17 +179,17 @@ def runE (portable : Bool) (envT textT : String) (treeWords : List String) : Str
       | some tree =>
         match Spec.parseText text, tree with
         | none, some _ => "FAIL:spec-rejects-rendered-tree"
-        | none, none => specError .syntax cause
+        | none, none => specError .syntax cause after
         | some e, tree =>
           if tree.isSome ∧ tree ≠ some e then "FAIL:spec-reads-another-tree"
           -- the hypothesis of `checked_tree_gets_its_C_value`, checked on every case: the code's parser model
           -- lays out exactly the vector of the tree the Spec reads (trees and vectors are one to one)
           else if (match parse text with | .ok a => a != rpn e | .error _ => true) then
             "FAIL:parser-model-does-not-build-the-vector-of-the-tree-the-Spec-reads"
-          else if portable ∧ Spec.hasIncDec e then specError .portability cause
+          else if portable ∧ Spec.hasIncDec e then specError .portability cause after
           else if !Spec.inScope e then "-"
           else match Spec.evalExact e env with
-            | none => specError .eval cause
+            | none => specError .eval cause after
             | some r => "=" ++ showSpec (some r)
     model ++ "\t" ++ spec
   | _, _ => "bad-case\t-"
@@ -387,17 +391,18 @@ def runW (portable : Bool) (extraT envT textT : String) (treeWords : List String
   | some extra, some env, some text =>
     if extra.any (fun c => c.toNat < 128) then "bad-case\t-" else
     let cause := evalStrCauseU extra portable text env
-    let model := showRun (if portable then evalStrPortableU extra text env else some (evalStrU extra text env)) cause
+    let after := envAfterU extra portable text env
+    let model := showRun (if portable then evalStrPortableU extra text env else some (evalStrU extra text env)) cause after
     let spec :=
       if treeWords.isEmpty then "-"
       else match parsePolish (treeWords.length + 1) treeWords with
         | some (e, []) =>
           if (match parseU extra text with | .ok a => a != rpn e | .error _ => true) then
             "FAIL:parser-model-does-not-build-the-vector-of-the-tree-the-harness-rendered"
-          else if portable ∧ Spec.hasIncDec e then specError .portability cause
+          else if portable ∧ Spec.hasIncDec e then specError .portability cause after
           else if !Spec.inScope e then "-"
           else match Spec.evalExact e env with
-            | none => specError .eval cause
+            | none => specError .eval cause after
             | some r => "=" ++ showSpec (some r)
         | _ => "FAIL:bad-tree-in-case"
     model ++ "\t" ++ spec
